@@ -7,7 +7,12 @@
 package runtime
 
 import (
+	"github.com/cosi-project/runtime/pkg/controller/runtime/internal/cache"
+	"github.com/cosi-project/runtime/pkg/controller/runtime/internal/dependency"
 	"github.com/cosi-project/runtime/pkg/controller/runtime/internal/qruntime"
+	"github.com/cosi-project/runtime/pkg/controller/runtime/internal/reduced"
+	"github.com/cosi-project/runtime/pkg/controller/runtime/options"
+	"github.com/cosi-project/runtime/pkg/resource"
 )
 
 // Verification-only re-exports of internal packages (build tag verif).
@@ -28,3 +33,26 @@ type VerifSliceSet[T comparable] = qruntime.VerifSliceSet[T]
 func VerifNewQueue[K comparable, V any]() *VerifQueue[K, V] {
 	return qruntime.VerifNewQueue[K, V]()
 }
+
+// VerifDepDB re-exports the dependency database.
+type VerifDepDB = dependency.Database
+
+// VerifNewDepDB creates an empty dependency database.
+func VerifNewDepDB() (*VerifDepDB, error) { return dependency.NewDatabase() }
+
+// VerifResourceCache re-exports the runtime read cache.
+type VerifResourceCache = cache.ResourceCache
+
+// VerifNewResourceCache creates a resource cache for the given kinds.
+func VerifNewResourceCache(resources []options.CachedResource) *VerifResourceCache {
+	return cache.NewResourceCache(resources)
+}
+
+// VerifReducedMetadata re-exports reduced.Metadata.
+type VerifReducedMetadata = reduced.Metadata
+
+// VerifNewReducedMetadata re-exports reduced.NewMetadata.
+func VerifNewReducedMetadata(md *resource.Metadata) VerifReducedMetadata { return reduced.NewMetadata(md) }
+
+// VerifFilterDestroyReady re-exports reduced.FilterDestroyReady.
+func VerifFilterDestroyReady(md *VerifReducedMetadata) bool { return reduced.FilterDestroyReady(md) }
